@@ -17,7 +17,18 @@ use serde::{Deserialize, Serialize};
 #[derive(Clone, Debug, PartialEq, Eq, Hash, Serialize, Deserialize)]
 pub enum ShuffleCase {
     /// determinism and content independence for one generator state
-    Det { n: usize, market: bool, seed: u64, layout_a: Vec<u8>, layout_b: Vec<u8>, #[serde(default = "yes")] trading: bool },
+    Det {
+        n: usize,
+        market: bool,
+        seed: u64,
+        layout_a: Vec<u8>,
+        layout_b: Vec<u8>,
+        #[serde(default = "yes")]
+        trading: bool,
+        /// time units per step: smaller than the batch in some cases (an overfull step is shuffled like any other)
+        #[serde(default = "thousand")]
+        step_size: u64,
+    },
     /// uniformity campaign: `steps` seeded steps of batch size `n`
     Uniform {
         n: usize,
@@ -33,7 +44,13 @@ pub enum ShuffleCase {
         /// carries from step to step (queue storage, counters) is part of the sample
         #[serde(default)]
         long_lived: bool,
+        #[serde(default = "thousand")]
+        step_size: u64,
     },
+}
+
+fn thousand() -> u64 {
+    1_000
 }
 
 fn yes() -> bool {
@@ -55,11 +72,11 @@ fn splitmix(x: &mut u64) -> u64 {
 /// the most recent order created earlier in this same batch - or a new ask if there is none).
 /// Returns the processed position of every submitted instruction; `None` for a kind-4 cancel that was
 /// processed before the placement it refers to (it is then a no-op and leaves no timestamp).
-fn measured_step(n: usize, market: bool, trading: bool, layout: &[u8], rng: &mut Xoroshiro128StarStar) -> Result<Vec<Option<usize>>, String> {
+fn measured_step(n: usize, market: bool, trading: bool, step_size: u64, layout: &[u8], rng: &mut Xoroshiro128StarStar) -> Result<Vec<Option<usize>>, String> {
     let assets = if market { 2 } else { 0 };
     let na = assets.max(1);
     let ticks = [1u32, 1, 1, 1];
-    let mut env: Box<dyn DynEnv> = new_env(assets, 1, 0, &ticks, 1_000, true);
+    let mut env: Box<dyn DynEnv> = new_env(assets, 1, 0, &ticks, step_size.max(1), true);
     // warm-up: the quote and one resting ask per future cancel / re-price, processed with a fixed generator
     let mut warm = Xoroshiro128StarStar::seed_from_u64(1);
     for a in 0..na {
@@ -306,13 +323,13 @@ pub fn outcome(_id: &'static str, c: &ShuffleCase) -> Outcome {
 
 fn run(c: &ShuffleCase) -> (Vec<(&'static str, u64)>, bool, Result<(), Failure>) {
     match c {
-        ShuffleCase::Det { n, market, seed, layout_a, layout_b, trading } => {
+        ShuffleCase::Det { n, market, seed, layout_a, layout_b, trading, step_size } => {
             let n = *n;
             let la: Vec<u8> = layout_a.iter().cloned().chain(std::iter::repeat(0)).take(n).collect();
             let lb: Vec<u8> = layout_b.iter().cloned().chain(std::iter::repeat(1)).take(n).collect();
             let go = |l: &[u8]| {
                 let mut r = Xoroshiro128StarStar::seed_from_u64(*seed);
-                measured_step(n, *market, *trading, l, &mut r)
+                measured_step(n, *market, *trading, *step_size, l, &mut r)
             };
             let kinds = {
                 let mut k = la.clone();
@@ -320,7 +337,7 @@ fn run(c: &ShuffleCase) -> (Vec<(&'static str, u64)>, bool, Result<(), Failure>)
                 k.dedup();
                 k.len()
             };
-            let classes = vec![("det_cases", 1u64), ("det_mixed_kind_batches", (kinds >= 2) as u64)];
+            let classes = vec![("det_cases", 1u64), ("det_mixed_kind_batches", (kinds >= 2) as u64), ("det_cases_with_more_instructions_than_time_units", ((n as u64) > *step_size) as u64)];
             let (a1, a2, b) = match (go(&la), go(&la), go(&lb)) {
                 (Ok(x), Ok(y), Ok(z)) => (x, y, z),
                 (Err(e), _, _) | (_, Err(e), _) | (_, _, Err(e)) => return (classes, false, Err(Failure::new("C15", "C15 processed positions are not a permutation", e))),
@@ -337,7 +354,7 @@ fn run(c: &ShuffleCase) -> (Vec<(&'static str, u64)>, bool, Result<(), Failure>)
             classes.push(("det_batches_with_instruction_for_order_of_same_batch", (la.contains(&4) || lb.contains(&4)) as u64));
             (classes, kinds >= 2 && n >= 2, Ok(()))
         }
-        ShuffleCase::Uniform { n, market, stream, steps, seed, alpha_exp, cases_in_run, trading, long_lived } => {
+        ShuffleCase::Uniform { n, market, stream, steps, seed, alpha_exp, cases_in_run, trading, long_lived, step_size } => {
             let n = *n;
             let mut aged = if *long_lived { Some(LongLived::new(*market)) } else { None };
             let small = n <= 6;
@@ -368,10 +385,10 @@ fn run(c: &ShuffleCase) -> (Vec<(&'static str, u64)>, bool, Result<(), Failure>)
                         ll.step(n, &mut s, &mut r).map(|p| p.into_iter().map(Some).collect())
                     }
                 } else if *stream {
-                    measured_step(n, *market, *trading, &layout, &mut stream_rng)
+                    measured_step(n, *market, *trading, *step_size, &layout, &mut stream_rng)
                 } else {
                     let mut r = Xoroshiro128StarStar::seed_from_u64(step_seed);
-                    measured_step(n, *market, *trading, &layout, &mut r)
+                    measured_step(n, *market, *trading, *step_size, &layout, &mut r)
                 };
                 let pos: Vec<usize> = match pos {
                     Ok(p) => p.into_iter().map(|x| x.expect("harness: campaign layouts reveal every position")).collect(),
@@ -500,7 +517,10 @@ pub fn parts(tier: Tier) -> (Vec<Part<Case>>, String) {
     const LONG_SIZES: [usize; 3] = [6, 24, 64];
     let n_long = LONG_SIZES.len() * 2;
     let steps_long: u64 = crate::engine::scaled(tier.pick(150_000, 1_500_000));
-    let total = (n_on + n_off + n_all + n_long) as u64;
+    // overfull steps (more instructions than time units): batch sizes 3 and 8 in steps of 2 time units
+    const OVER_SIZES: [usize; 2] = [3, 8];
+    let n_over = OVER_SIZES.len() * 2;
+    let total = (n_on + n_off + n_all + n_long + n_over) as u64;
     let uniform = Part {
         name: "uniformity-campaigns".to_string(),
         kind: PartKind::Exhaustive {
@@ -512,19 +532,22 @@ pub fn parts(tier: Tier) -> (Vec<Part<Case>>, String) {
                     let n = SIZES[SIZES.len() - 1 - k / 4];
                     let market = k % 2 == 1;
                     let stream = (k / 2) % 2 == 1;
-                    Some(Case::Shuffle(ShuffleCase::Uniform { n, market, stream, steps, seed, alpha_exp: 9, cases_in_run: total as u32, trading: true, long_lived: false }))
+                    Some(Case::Shuffle(ShuffleCase::Uniform { n, market, stream, steps, seed, alpha_exp: 9, cases_in_run: total as u32, trading: true, long_lived: false, step_size: 1_000 }))
                 } else if k < n_on + n_off {
                     let j = k - n_on;
-                    Some(Case::Shuffle(ShuffleCase::Uniform { n: OFF_SIZES[j / 2], market: j % 2 == 1, stream: false, steps, seed, alpha_exp: 9, cases_in_run: total as u32, trading: false, long_lived: false }))
+                    Some(Case::Shuffle(ShuffleCase::Uniform { n: OFF_SIZES[j / 2], market: j % 2 == 1, stream: false, steps, seed, alpha_exp: 9, cases_in_run: total as u32, trading: false, long_lived: false, step_size: 1_000 }))
+                } else if k >= n_on + n_off + n_all + n_long {
+                    let j = k - n_on - n_off - n_all - n_long;
+                    Some(Case::Shuffle(ShuffleCase::Uniform { n: OVER_SIZES[j / 2], market: j % 2 == 1, stream: false, steps, seed: seed ^ 0x0F, alpha_exp: 9, cases_in_run: total as u32, trading: true, long_lived: false, step_size: 2 }))
                 } else if k >= n_on + n_off + n_all {
                     let j = k - n_on - n_off - n_all;
-                    Some(Case::Shuffle(ShuffleCase::Uniform { n: LONG_SIZES[j / 2], market: j % 2 == 1, stream: true, steps: steps_long, seed: seed ^ 0x10E6, alpha_exp: 9, cases_in_run: total as u32, trading: true, long_lived: true }))
+                    Some(Case::Shuffle(ShuffleCase::Uniform { n: LONG_SIZES[j / 2], market: j % 2 == 1, stream: true, steps: steps_long, seed: seed ^ 0x10E6, alpha_exp: 9, cases_in_run: total as u32, trading: true, long_lived: true, step_size: 1_000 }))
                 } else {
                     let j = k - n_on - n_off;
-                    Some(Case::Shuffle(ShuffleCase::Uniform { n: all_sizes[j], market: j % 2 == 1, stream: false, steps: steps_all, seed: seed ^ 0xA11, alpha_exp: 9, cases_in_run: total as u32, trading: true, long_lived: true }))
+                    Some(Case::Shuffle(ShuffleCase::Uniform { n: all_sizes[j], market: j % 2 == 1, stream: false, steps: steps_all, seed: seed ^ 0xA11, alpha_exp: 9, cases_in_run: total as u32, trading: true, long_lived: true, step_size: 1_000 }))
                 }
             }),
-            description: format!("one campaign of {} seeded steps for each batch size in {:?} x environment in {{Env, MarketEnv<2>}} x generator in {{freshly seeded per step, one continuing stream}} with trading enabled, plus batch sizes {:?} x both environments during a no-trading period, plus one campaign of {} steps for EVERY batch size 2..=64 (Env and MarketEnv<2> alternating, fresh seed per step, all steps on long-lived environments, each used for 20 000 consecutive steps); plus campaigns of {} steps on long-lived environments (20 000 consecutive steps each, one continuing generator stream) for batch sizes {:?} x both environments (each step cancels the previous step's orders and places new ones); repeat statistic over position windows in every campaign", steps, SIZES, OFF_SIZES, steps_all, steps_long, LONG_SIZES),
+            description: format!("one campaign of {} seeded steps for each batch size in {:?} x environment in {{Env, MarketEnv<2>}} x generator in {{freshly seeded per step, one continuing stream}} with trading enabled, plus batch sizes {:?} x both environments during a no-trading period, plus one campaign of {} steps for EVERY batch size 2..=64 (Env and MarketEnv<2> alternating, fresh seed per step, all steps on long-lived environments, each used for 20 000 consecutive steps); plus campaigns of {} steps on long-lived environments (20 000 consecutive steps each, one continuing generator stream) for batch sizes {:?} x both environments (each step cancels the previous step's orders and places new ones); plus batch sizes {:?} x both environments in steps of 2 time units (more instructions than time units); repeat statistic over position windows in every campaign", steps, SIZES, OFF_SIZES, steps_all, steps_long, LONG_SIZES, OVER_SIZES),
         },
     };
     let det = Part {
@@ -532,7 +555,10 @@ pub fn parts(tier: Tier) -> (Vec<Part<Case>>, String) {
         kind: PartKind::Random {
             make: Box::new(|| {
                 (prop_oneof![4 => 2usize..=8, 1 => Just(16usize), 1 => Just(32usize), 1 => Just(64usize)], any::<bool>(), any::<u64>())
-                    .prop_flat_map(|(n, market, seed)| (proptest::collection::vec(0u8..5, n), proptest::collection::vec(0u8..5, n), 0u8..5).prop_map(move |(layout_a, layout_b, t)| Case::Shuffle(ShuffleCase::Det { n, market, seed, layout_a, layout_b, trading: t != 0 })))
+                    .prop_flat_map(|(n, market, seed)| {
+                        (proptest::collection::vec(0u8..5, n), proptest::collection::vec(0u8..5, n), 0u8..5, prop_oneof![5 => Just(1_000u64), 1 => Just(n as u64), 1 => Just(n as u64 - 1), 1 => 1u64..=(n as u64 / 2).max(1)])
+                            .prop_map(move |(layout_a, layout_b, t, step_size)| Case::Shuffle(ShuffleCase::Det { n, market, seed, layout_a, layout_b, trading: t != 0, step_size }))
+                    })
                     .boxed()
             }),
             cases: tier.pick(40_000, 600_000),
